@@ -12,6 +12,15 @@ fn tohex(b: &[u8]) -> String {
     b.iter().map(|x| format!("{:02x}", x)).collect()
 }
 
+fn mk_resp<B>(op: &Value, body: B) -> http::Response<B> {
+    let mut r = http::Response::new(body);
+    *r.status_mut() = http::StatusCode::from_u16(op["status"].as_u64().unwrap() as u16).unwrap();
+    if let Some(ct) = op["content_type"].as_str() {
+        r.headers_mut().insert(http::header::CONTENT_TYPE, http::HeaderValue::from_str(ct).unwrap());
+    }
+    r
+}
+
 fn run(op: &Value) -> Value {
     let name = op["op"].as_str().unwrap_or("");
     match name {
@@ -156,6 +165,44 @@ fn run(op: &Value) -> Value {
                     Ok(e) => json!({"chosen": e.content_type().to_str().unwrap()}),
                     Err(e) => json!({"chosen": Value::Null, "code": format!("{:?}", match e.kind() { conjure_error::ErrorKind::Service(s) => format!("{:?}", s.error_code()), _ => "other".to_string() })}),
                 }
+            }
+        }
+        "read_body" | "client_decode" => {
+            use conjure_error::Error;
+            let chunks: Vec<Option<Vec<u8>>> = op["chunks"].as_array().unwrap().iter()
+                .map(|c| c.as_str().map(hex)).collect();
+            let items = |chunks: &Vec<Option<Vec<u8>>>| -> Vec<Result<bytes::Bytes, Error>> {
+                chunks.iter().map(|c| match c {
+                    Some(b) => Ok(bytes::Bytes::from(b.clone())),
+                    None => Err(Error::internal_safe("stream")),
+                }).collect()
+            };
+            let show = |r: Result<String, Error>| match r {
+                Ok(v) => json!({"ok": v}),
+                Err(e) => json!({"err": if e.cause().to_string() == "stream" { "stream".to_string() } else if e.cause().to_string() == "body too large" { "too large".to_string() } else { e.cause().to_string() }}),
+            };
+            if name == "read_body" {
+                let limit = op["limit"].as_u64().map(|v| v as usize);
+                let b = conjure_http::private::read_body(items(&chunks).into_iter(), limit).map(|b| tohex(&b));
+                let a = futures::executor::block_on(conjure_http::private::async_read_body(futures::stream::iter(items(&chunks)), limit)).map(|b| tohex(&b));
+                json!({"blocking": show(b), "async": show(a)})
+            } else {
+                let kind = op["kind"].as_str().unwrap();
+                let (b, a) = match kind {
+                    "value" => (
+                        conjure_http::private::decode_serializable_response::<i32, _>(mk_resp(op, items(&chunks).into_iter())).map(|v| v.to_string()),
+                        futures::executor::block_on(conjure_http::private::async_decode_serializable_response::<i32, _>(mk_resp(op, futures::stream::iter(items(&chunks))))).map(|v| v.to_string()),
+                    ),
+                    "default" => (
+                        conjure_http::private::decode_default_serializable_response::<Option<i32>, _>(mk_resp(op, items(&chunks).into_iter())).map(|v| format!("{:?}", v)),
+                        futures::executor::block_on(conjure_http::private::async_decode_default_serializable_response::<Option<i32>, _>(mk_resp(op, futures::stream::iter(items(&chunks))))).map(|v| format!("{:?}", v)),
+                    ),
+                    _ => (
+                        conjure_http::private::decode_empty_response(mk_resp(op, items(&chunks).into_iter())).map(|_| "()".to_string()),
+                        futures::executor::block_on(conjure_http::private::async_decode_empty_response(mk_resp(op, futures::stream::iter(items(&chunks))))).map(|_| "()".to_string()),
+                    ),
+                };
+                json!({"blocking": show(b), "async": show(a)})
             }
         }
         _ => json!({"error": format!("unknown op {}", name)}),
